@@ -8,7 +8,7 @@ t=sys.stdin.read()
 try:
     j=json.loads(t[t.index('{'):]); print(json.dumps({'seed':j['seed'],'demo_clean':j['demo_clean_rc'],'demo_patched':j.get('demo_patched_rc'),'checks':{k:{'rc':v['rc'],'violations':v['violations'],'first':(v['first'][:1] or [''])[0][:200]} for k,v in j['checks'].items()}}))
 except Exception as e: print(json.dumps({'seed':'$s','error':t[-300:]}))"; }
-for s in $(ls seeded | grep -E "^C[0-9]+-m[0-9]$" | sort); do
+for s in $(ls seeded | grep -E "^C[0-9]+-m[0-9]+$" | sort); do
   while [ $(jobs -r | wc -l) -ge 4 ]; do sleep 1; done
   run $s >> /tmp/seed_results.jsonl &
 done; wait
